@@ -260,7 +260,15 @@ func genC08Input(t *rapid.T) (src string, origin string) {
 		p, _, _ := GenFullProgram(t, FullOpts{Wide: true, Transforms: true, MaxCmds: 2})
 		toks := p.Tokens()
 		i := rapid.IntRange(0, len(toks)-1).Draw(t, "muti")
-		switch rapid.IntRange(0, 3).Draw(t, "mutkind") {
+		switch rapid.IntRange(0, 5).Draw(t, "mutkind") {
+		case 4:
+			// insertion of a vocabulary token
+			ins := rapid.SampledFrom(soupVocabulary).Draw(t, "ins")
+			toks = append(append(append([]string{}, toks[:i]...), ins), toks[i:]...)
+		case 5:
+			// the tail replaced by one or two vocabulary tokens (the input ends in an odd place)
+			tail := rapid.SliceOfN(rapid.SampledFrom(soupVocabulary), 1, 2).Draw(t, "tail")
+			toks = append(append([]string{}, toks[:i+1]...), tail...)
 		case 0:
 			toks = append(append([]string{}, toks[:i]...), toks[i+1:]...)
 		case 1:
